@@ -644,7 +644,10 @@ def _apply(e, case):
             idx, vals = indexed_raw(col["data"], col.get("noidx", True))
             r = getattr(ops, "apply_spans_" + fn)(sp, np.array(idx, dtype=np.int64), np.array(vals, dtype=np.uint8))
             return {"idx": [int(x) for x in r]}
-        g = f.apply_spans_min(sp) if fn == "index_of_min_indexed" else f.apply_spans_max(sp)
+        kw, tgt = _target_variant(case, f)
+        g = f.apply_spans_min(sp, **kw) if fn == "index_of_min_indexed" else f.apply_spans_max(sp, **kw)
+        if tgt is not None and g is not tgt:
+            raise AssertionError("apply_spans_* did not return the field it was told to write to")
         gi, gv = g.indices[:], g.values[:]
         return {"rows": [bytes(gv[gi[i]:gi[i + 1]].tolist()).decode("latin-1") for i in range(len(gi) - 1)]}
     if level == "ops":
@@ -654,8 +657,34 @@ def _apply(e, case):
         k = getattr(s, "apply_spans_" + fn)
         r = k(sp) if col is None else k(sp, np_array(e, col))
     else:
-        r = getattr(mk_field(e, col), "apply_spans_" + fn)(sp).data[:]
+        f = mk_field(e, col)
+        kw, tgt = _target_variant(case, f)
+        g = getattr(f, "apply_spans_" + fn)(sp, **kw)
+        if tgt is not None and g is not tgt:
+            raise AssertionError("apply_spans_* did not return the field it was told to write to")
+        r = g.data[:]
     return {"vals": values_out(e, r)}
+
+
+def _target_variant(case, f):
+    """where a field-level reduction writes (by case number; the expected rows are the same for all four): a new field (the
+    default), a fresh `target=`, a `target=` that already holds rows (one summary field reused for successive reductions: it must
+    end up holding exactly one row per span), or `in_place=True` → (keyword arguments, the object that must be returned)"""
+    v = case.get("_n", 0) % 4
+    if v == 1:
+        t = f.create_like()
+        return {"target": t}, t
+    if v == 2:
+        t = f.create_like()
+        if hasattr(f, "indices"):
+            t.data.write(["stale", "", "rows"])
+        else:
+            t.data.write(f.data[:])
+            t.data.write(f.data[:])
+        return {"target": t}, t
+    if v == 3:
+        return {"in_place": True}, f
+    return {}, None
 
 
 # ------------------------------------------------------------------------------------------------------------------
